@@ -50,7 +50,9 @@ CONSTANTS
   NPages,      \* virtual pages 0 .. NPages-1 (all mapped)
   GPUs,        \* set of GPU ids
   PageDev,     \* tuple: GPU that owns virtual page i-1
-  PhysPage,    \* tuple: physical page number of virtual page i-1 (a permutation of 0..NPages-1)
+  PhysPage,    \* tuple: initial physical page (frame) of virtual page i-1 (a permutation of 0..NPages-1)
+  SpareDev,    \* tuple: GPUs of the spare frames NPages, NPages+1, ... a Remap can move a page to
+  MaxRemap,    \* Remap / Distribute calls per behaviour
   Bufs,        \* tuple of [s |-> first byte, n |-> size in bytes, ctx |-> owning context]
   Ctxs,        \* set of contexts (all share the process id)
   Queues,      \* set of command queues
@@ -61,6 +63,9 @@ CONSTANTS
   Deviations
 
 VARIABLES
+  ppage,     \* [1..NPages -> frame]  the page table: frame of virtual page i-1 NOW (Remap moves it)
+  tc,        \* [v, f] the page the copy path translated last (v = -1: none); used only by "stale_page_cache"
+  nremap,
   dram,      \* [PAddr -> Val]      DRAM contents (the global storage)
   cache,     \* [PAddr -> Val]      dirty bytes held by the L2 of the owning GPU; NoVal = not dirty
   bdirty,    \* [DOMAIN Bufs -> BOOLEAN]   driver.buffer.l2Dirty
@@ -82,21 +87,22 @@ VARIABLES
   result,    \* [1..MaxCmds -> tuple of Val]  what a D2H handed to the host
   expect     \* [1..MaxCmds -> tuple of Val]  arch over the range when it completed
 
-vars == <<dram, cache, bdirty, nlive, ncmd, cur, krun, awaiting, toSend, chan, rsp, nreq,
+vars == <<ppage, tc, nremap, dram, cache, bdirty, nlive, ncmd, cur, krun, awaiting, toSend, chan, rsp, nreq,
           arch, done, answered, taken, issued, result, expect>>
 
 NoVal  == <<>>
 NBytes == NPages * PageSize
 VAddr  == 0 .. NBytes - 1
-PAddr  == 0 .. NBytes - 1
+NFrames == NPages + Len(SpareDev)
+PAddr  == 0 .. NFrames * PageSize - 1
 VPage(a) == a \div PageSize
-PA(a)    == PhysPage[VPage(a) + 1] * PageSize + (a % PageSize)     \* page table walk
-DevOfVA(a) == PageDev[VPage(a) + 1]
+PA(a)    == ppage[VPage(a) + 1] * PageSize + (a % PageSize)        \* page table walk, NOW
+FrameDev(f) == IF f < NPages THEN PageDev[(CHOOSE v \in 1..NPages : PhysPage[v] = f)] ELSE SpareDev[f - NPages + 1]
+DevOfVA(a) == FrameDev(ppage[VPage(a) + 1])
 \* owner of a physical address
-VAofPA(p) == CHOOSE a \in VAddr : PA(a) = p
-DevOfPA(p) == DevOfVA(VAofPA(p))
+DevOfPA(p) == FrameDev(p \div PageSize)
 
-NoReq == [id |-> 0, c |-> 0, q |-> 0, k |-> "none", g |-> 0, va |-> 0, n |-> 0, off |-> 0, w |-> {}]
+NoReq == [id |-> 0, c |-> 0, q |-> 0, k |-> "none", g |-> 0, va |-> 0, pa |-> 0, n |-> 0, off |-> 0, w |-> {}]
 Idle == [k |-> "none", id |-> 0, ctx |-> 0, va |-> 0, n |-> 0, reqs |-> {}, made |-> 0, raw |-> <<>>, w |-> {}]
 
 \* ------------------------------------------------------------ page-wise split
@@ -121,6 +127,7 @@ NeedFlush(c, va, n) ==
 
 \* --------------------------------------------------------------------- Init
 Init ==
+  /\ ppage = PhysPage /\ tc = [v |-> -1, f |-> 0] /\ nremap = 0
   /\ dram = [p \in PAddr |-> <<0, p>>]
   /\ cache = [p \in PAddr |-> NoVal]
   /\ bdirty = [i \in BufIds |-> FALSE]
@@ -163,7 +170,7 @@ StartKern(q, c, g, w) ==
                                                    !.made = 1, !.w = w]]
         /\ toSend' = Append(toSend, r)
   /\ bdirty' = [i \in BufIds |-> IF i \in SeenBy(c) THEN TRUE ELSE bdirty[i]]
-  /\ UNCHANGED <<dram, cache, nlive, krun, awaiting, chan, rsp, arch, done, answered, taken, issued, result, expect>>
+  /\ UNCHANGED <<ppage, tc, nremap, dram, cache, nlive, krun, awaiting, chan, rsp, arch, done, answered, taken, issued, result, expect>>
 
 \* processMemCopyH2DCommand / processMemCopyD2HCommand
 StartCopy(q, k, c, va, n) ==
@@ -175,10 +182,15 @@ StartCopy(q, k, c, va, n) ==
                        [NoReq EXCEPT !.id = nreq + i, !.c = ncmd + 1, !.q = q, !.k = "flush", !.g = GPUSeq[i]]]
                ELSE <<>>
          sp == Split(va, n, 0)
+         \* translation of piece i: the page table - or, as seeded, the page translated last if it is the same page
+         Fr(i) == IF i = 1 /\ "stale_page_cache" \in Deviations /\ tc.v = VPage(sp[i].a)
+                  THEN tc.f ELSE ppage[VPage(sp[i].a) + 1]
          pc == [i \in 1..Len(sp) |->
-                  [NoReq EXCEPT !.id = nreq + Len(fl) + i, !.c = ncmd + 1, !.q = q, !.k = k, !.g = DevOfVA(sp[i].a),
-                                !.va = sp[i].a, !.n = sp[i].n, !.off = sp[i].off]]
-     IN /\ nreq' = nreq + Len(fl) + Len(pc)
+                  [NoReq EXCEPT !.id = nreq + Len(fl) + i, !.c = ncmd + 1, !.q = q, !.k = k, !.g = FrameDev(Fr(i)),
+                                !.va = sp[i].a, !.pa = Fr(i) * PageSize + (sp[i].a % PageSize),
+                                !.n = sp[i].n, !.off = sp[i].off]]
+     IN /\ tc' = IF Len(sp) = 0 THEN tc ELSE [v |-> VPage(sp[Len(sp)].a), f |-> Fr(Len(sp))]
+        /\ nreq' = nreq + Len(fl) + Len(pc)
         /\ toSend' = toSend \o fl            \* sendFlushRequest: at once
         /\ awaiting' = awaiting \o pc        \* pieces wait for cyclesPer{H2D,D2H}
         /\ cur' = [cur EXCEPT ![q] = [Idle EXCEPT !.k = k, !.id = ncmd + 1, !.ctx = c, !.va = va, !.n = n,
@@ -189,31 +201,44 @@ StartCopy(q, k, c, va, n) ==
         \* the seeded optimisation: the queued flush is taken to clean every buffer of the process
         /\ bdirty' = IF fl # <<>> /\ "clean_when_flush_queued" \in Deviations
                      THEN [i \in BufIds |-> IF i \in SeenBy(c) THEN FALSE ELSE bdirty[i]] ELSE bdirty
-  /\ UNCHANGED <<dram, cache, nlive, krun, chan, rsp, arch, done, answered, taken, result, expect>>
+  /\ UNCHANGED <<ppage, nremap, dram, cache, nlive, krun, chan, rsp, arch, done, answered, taken, result, expect>>
 
 \* AllocateMemory: the next buffer (higher addresses) becomes live, clean
 Alloc ==
   /\ AllIdle /\ nlive < Len(Bufs)
   /\ nlive' = nlive + 1
-  /\ UNCHANGED <<dram, cache, bdirty, ncmd, cur, krun, awaiting, toSend, chan, rsp, nreq, arch, done, answered, taken, issued, result, expect>>
+  /\ UNCHANGED <<ppage, tc, nremap, dram, cache, bdirty, ncmd, cur, krun, awaiting, toSend, chan, rsp, nreq, arch, done, answered, taken, issued, result, expect>>
+
+\* Driver.Remap / Distribute: virtual page v moves to the free frame f (usually of another GPU).  The
+\* contents are not moved: the bytes at these addresses are now what the new frame holds.  The intended
+\* design forgets the page the copy path translated last; "stale_page_cache" keeps it.
+Remap(v, f) ==
+  /\ AllIdle /\ nremap < MaxRemap /\ \A g \in GPUs : krun[g].k = "none"
+  /\ v \in 1..NPages /\ f \in 0..(NFrames - 1) /\ \A u \in 1..NPages : ppage[u] # f
+  /\ \A o \in 0..(PageSize - 1) : cache[ppage[v] * PageSize + o] = NoVal /\ cache[f * PageSize + o] = NoVal
+  /\ ppage' = [ppage EXCEPT ![v] = f] /\ nremap' = nremap + 1
+  /\ tc' = IF "stale_page_cache" \in Deviations THEN tc ELSE [v |-> -1, f |-> 0]
+  /\ arch' = [a \in VAddr |-> IF VPage(a) = v - 1 THEN dram[f * PageSize + (a % PageSize)] ELSE arch[a]]
+  /\ UNCHANGED <<dram, cache, bdirty, nlive, ncmd, cur, krun, awaiting, toSend, chan, rsp, nreq, done, answered, taken,
+                 issued, result, expect>>
 
 \* middleware Tick, cyclesLeft = 0
 Release ==
   /\ awaiting # <<>>
   /\ toSend' = toSend \o awaiting /\ awaiting' = <<>>
-  /\ UNCHANGED <<dram, cache, bdirty, nlive, ncmd, cur, krun, chan, rsp, nreq, arch, done, answered, taken, issued, result, expect>>
+  /\ UNCHANGED <<ppage, tc, nremap, dram, cache, bdirty, nlive, ncmd, cur, krun, chan, rsp, nreq, arch, done, answered, taken, issued, result, expect>>
 
 \* sendToGPUs
 DrvSend ==
   /\ toSend # <<>>
   /\ LET r == Head(toSend) IN chan' = [chan EXCEPT ![r.g] = Append(@, r)]
   /\ toSend' = Tail(toSend)
-  /\ UNCHANGED <<dram, cache, bdirty, nlive, ncmd, cur, krun, awaiting, rsp, nreq, arch, done, answered, taken, issued, result, expect>>
+  /\ UNCHANGED <<ppage, tc, nremap, dram, cache, bdirty, nlive, ncmd, cur, krun, awaiting, rsp, nreq, arch, done, answered, taken, issued, result, expect>>
 
 \* ---------------------------------------------------------------- one GPU
 \* The command processor serves the driver's requests in order; a copy waits
 \* for a preceding flush (numCacheACK > 0 blocks processMemCopyReq).
-InPiece(r, p) == \E i \in 0..(r.n - 1) : PA(r.va + i) = p
+InPiece(r, p) == p >= r.pa /\ p < r.pa + r.n          \* a piece stays inside one frame
 GPUHandle(g) ==
   /\ chan[g] # <<>>
   /\ LET r == Head(chan[g]) IN
@@ -225,35 +250,36 @@ GPUHandle(g) ==
                /\ UNCHANGED <<cur, krun>>
           [] r.k = "h2d" ->            \* the DMA engine writes DRAM directly
                /\ dram' = [p \in PAddr |-> IF InPiece(r, p)
-                                           THEN <<r.c, r.off + (VAofPA(p) - r.va) + 1>> ELSE dram[p]]
+                                           THEN <<r.c, r.off + (p - r.pa) + 1>> ELSE dram[p]]
                /\ rsp' = [rsp EXCEPT ![g] = Append(@, r)] /\ answered' = answered \cup {r.id}
                /\ UNCHANGED <<cache, cur, krun>>
           [] r.k = "d2h" ->            \* the DMA engine reads DRAM into the command's RawData
                /\ cur' = [cur EXCEPT ![r.q].raw = [i \in 1..cur[r.q].n |->
-                                                IF i > r.off /\ i <= r.off + r.n THEN dram[PA(r.va + (i - r.off - 1))]
+                                                IF i > r.off /\ i <= r.off + r.n THEN dram[r.pa + (i - r.off - 1)]
                                                 ELSE cur[r.q].raw[i]]]
                /\ rsp' = [rsp EXCEPT ![g] = Append(@, r)] /\ answered' = answered \cup {r.id}
                /\ UNCHANGED <<dram, cache, krun>>
           [] r.k = "launch" ->         \* the kernel starts; the command processor keeps serving the requests behind it
                /\ krun[g].k = "none" /\ krun' = [krun EXCEPT ![g] = r]
                /\ UNCHANGED <<dram, cache, cur, rsp, answered>>
-  /\ UNCHANGED <<bdirty, nlive, ncmd, awaiting, toSend, nreq, arch, done, taken, issued, result, expect>>
+  /\ UNCHANGED <<ppage, tc, nremap, bdirty, nlive, ncmd, awaiting, toSend, nreq, arch, done, taken, issued, result, expect>>
 
 \* the kernel finishes: its stores are dirty in the L2 of the GPU that owns the bytes, the launch is answered
 KernelFinish(g) ==
   /\ krun[g].k = "launch"
   /\ LET r == krun[g] IN
-     /\ cache' = [p \in PAddr |-> IF VAofPA(p) \in r.w THEN <<0 - r.c, VAofPA(p)>> ELSE cache[p]]
+     /\ cache' = [p \in PAddr |-> IF \E a \in r.w : PA(a) = p
+                                  THEN <<0 - r.c, CHOOSE a \in r.w : PA(a) = p>> ELSE cache[p]]
      /\ arch' = [a \in VAddr |-> IF a \in r.w THEN <<0 - r.c, a>> ELSE arch[a]]
      /\ rsp' = [rsp EXCEPT ![g] = Append(@, r)] /\ answered' = answered \cup {r.id}
   /\ krun' = [krun EXCEPT ![g] = NoReq]
-  /\ UNCHANGED <<dram, bdirty, nlive, ncmd, cur, awaiting, toSend, chan, nreq, done, taken, issued, result, expect>>
+  /\ UNCHANGED <<ppage, tc, nremap, dram, bdirty, nlive, ncmd, cur, awaiting, toSend, chan, nreq, done, taken, issued, result, expect>>
 
 \* the L2 may write a dirty byte back whenever it likes
 Evict(p) ==
   /\ cache[p] # NoVal
   /\ dram' = [dram EXCEPT ![p] = cache[p]] /\ cache' = [cache EXCEPT ![p] = NoVal]
-  /\ UNCHANGED <<bdirty, nlive, ncmd, cur, krun, awaiting, toSend, chan, rsp, nreq, arch, done, answered, taken, issued, result, expect>>
+  /\ UNCHANGED <<ppage, tc, nremap, bdirty, nlive, ncmd, cur, krun, awaiting, toSend, chan, rsp, nreq, arch, done, answered, taken, issued, result, expect>>
 
 \* ----------------------------------------------------- driver: responses
 ArchSlice(va, n) == [i \in 1..n |-> arch[va + i - 1]]
@@ -276,7 +302,7 @@ Complete(q) ==
 CompleteEmpty(q) ==
   /\ cur[q].k \in {"h2d", "d2h"} /\ cur[q].made = 0 /\ "empty_copy_no_complete" \notin Deviations
   /\ Complete(q)
-  /\ UNCHANGED <<dram, cache, bdirty, nlive, ncmd, krun, awaiting, toSend, chan, rsp, nreq, answered, taken, issued>>
+  /\ UNCHANGED <<ppage, tc, nremap, dram, cache, bdirty, nlive, ncmd, krun, awaiting, toSend, chan, rsp, nreq, answered, taken, issued>>
 
 \* Tick: the response at the head of the GPU port
 DrvTake(g) ==
@@ -291,13 +317,14 @@ DrvTake(g) ==
            THEN Complete(q)
            ELSE /\ cur' = [cur EXCEPT ![q].reqs = left]
                 /\ UNCHANGED <<arch, done, result, expect>>
-  /\ UNCHANGED <<dram, cache, bdirty, nlive, ncmd, krun, awaiting, toSend, chan, nreq, answered, issued>>
+  /\ UNCHANGED <<ppage, tc, nremap, dram, cache, bdirty, nlive, ncmd, krun, awaiting, toSend, chan, nreq, answered, issued>>
 
 \* --------------------------------------------------------------------- Next
 Next ==
   \/ \E q \in Queues, c \in Ctxs, g \in GPUs, w \in KWrites : StartKern(q, c, g, w)
   \/ \E q \in Queues, k \in {"h2d", "d2h"}, c \in Ctxs, r \in Ranges : StartCopy(q, k, c, r[1], r[2])
   \/ Alloc \/ Release \/ DrvSend
+  \/ \E v \in 1..NPages, f \in 0..(NFrames - 1) : Remap(v, f)
   \/ \E q \in Queues : CompleteEmpty(q)
   \/ \E g \in GPUs : GPUHandle(g) \/ KernelFinish(g) \/ DrvTake(g)
   \/ \E p \in PAddr : Evict(p)
